@@ -392,4 +392,69 @@ theorem outside_ignored_replicate_partial (src snk : Str) (isFiler incr found fr
 example : OutsideStr "/data".toList "/dat/x".toList ∧ OutsideStr "/data".toList "/other/data/x".toList ∧
     ¬ OutsideStr "/data".toList "/data2/x".toList := by decide
 
+/-! ------------------------------------------------------------------------------------------------
+## LocalSink behind the process function (localsink tree comparison, `lsync` lines)
+
+Model: `Tree`, `lsDelete` / `lsCreate` / `lsUpdate`, `lsyncRun` (Model/C36.lean); judge: `srcApply`,
+`mirror`, `lsyncJudge` (Spec/C36.lean).
+
+FULL-STRENGTH statement "after every well-formed event sequence the files below the sink directory
+are exactly the mapped files of the watched subtree (`listing` restricted to files = `mirror`)" is
+FALSE of the model and of the code — two witnesses below (`localsink_rename_keeps_old_path`,
+`localsink_nonempty_directory_kept`); the judge reports them as
+`LocalSink.UpdateEntry/rename-keeps-old-path` and `LocalSink.DeleteEntry/non-empty-directory-kept`.
+------------------------------------------------------------------------------------------------ -/
+
+/-- the judge's mapped key is the specification's `mappedComps` relative to the sink directory -/
+theorem mirrorKey_eq_mappedComps (src p : Str) : mirrorKey src (comps p) = mappedComps src [] false p := by
+  simp [mirrorKey, mappedComps, comps, compsAux]
+
+/-- `LocalSink.CreateEntry` never materialises a directory entry -/
+theorem lsCreate_directory_noop (t : Tree) (key : Str) : lsCreate t key true = (t, true) := by
+  simp [lsCreate]
+
+/-- `LocalSink.UpdateEntry` on a key that is a file in the sink directory (its parent being a
+    directory, as the tree invariant says) answers "found" and leaves the tree as it is — for EVERY
+    new parent path, which is why a rename of a mirrored file never moves it -/
+theorem lsUpdate_existing_file (t : Tree) (key : Str) (hm : isMultiPart key = false)
+    (hf : stat t (comps key) = .file) (hd : stat t (comps key).dropLast = .dir) :
+    lsUpdate t key false = (t, true, true) := by
+  simp [lsUpdate, lsCreate, fileExists, hm, hf, hd]
+
+theorem rename_of_existing_file_keeps_tree (t : Tree) (key np : Str) (hm : isMultiPart key = false)
+    (hf : stat t (comps key) = .file) (hd : stat t (comps key).dropLast = .dir) :
+    lsFound t [.update key np] = true ∧ applyCalls t false [.update key np] = (t, true) := by
+  simp [lsFound, applyCalls, lsUpdate_existing_file t key hm hf hd]
+
+example : isMultiPart "/t/x".toList = false ∧ stat ⟨[["t", "x"].map String.toList], [["t"].map String.toList]⟩ (comps "/t/x".toList) = .file ∧
+    stat ⟨[["t", "x"].map String.toList], [["t"].map String.toList]⟩ (comps "/t/x".toList).dropLast = .dir := by decide
+
+def evCreateF (dir name : String) : LEv := ⟨dir.toList, none, some (false, name.toList), dir.toList⟩
+def evDelete (isDir : Bool) (dir name : String) : LEv := ⟨dir.toList, some (isDir, name.toList), none, []⟩
+def evRenameF (dir name dir' name' : String) : LEv := ⟨dir.toList, some (false, name.toList), some (false, name'.toList), dir'.toList⟩
+
+def finalListing (src : String) (evs : List LEv) : List String :=
+  match (lsyncRun src.toList "/t".toList false Tree.empty evs).getLast? with
+  | some r => (listing (comps "/t".toList) r.1).map String.ofList
+  | none => []
+
+/-- witness against the full statement: create /data/x, rename it to /data/y — the sink directory still
+    holds `x` and no `y` (UpdateEntry re-creates the OLD key and ignores the new parent path) -/
+theorem localsink_rename_keeps_old_path :
+    finalListing "/data" [evCreateF "/data" "x", evRenameF "/data" "x" "/data" "y"] = ["x"] ∧
+    (srcApply SrcTree.empty (evCreateF "/data" "x") >>= (srcApply · (evRenameF "/data" "x" "/data" "y"))).map (mirror "/data".toList)
+      = some ["y".toList] := by decide
+
+/-- witness against the full statement: create /data/d/y, delete the directory /data/d — `os.Remove`
+    fails on the non-empty directory, the error is only logged, `d/y` stays -/
+theorem localsink_nonempty_directory_kept :
+    finalListing "/data" [evCreateF "/data/d" "y", evDelete true "/data" "d"] = ["d/", "d/y"] ∧
+    (srcApply SrcTree.empty (evCreateF "/data/d" "y") >>= (srcApply · (evDelete true "/data" "d"))).map (mirror "/data".toList)
+      = some [] := by decide
+
+/-- …while deleting the children first (what the filer's recursive delete announces) is mirrored -/
+theorem localsink_children_first_delete_mirrored :
+    finalListing "/data" [evCreateF "/data/d" "y", evCreateF "/data" "x", evDelete false "/data/d" "y", evDelete true "/data" "d"] = ["x"] := by decide
+
+
 end SwV.Props.C36
